@@ -156,12 +156,35 @@ pub fn emit(args: &[String]) {
         serde_json::to_writer(&mut *w, &json!({"id": *id, "inp": cps(s), "got": got})).unwrap();
         w.write_all(b"\n").unwrap();
     };
+    // long documents: acceptance and the NUMBER of pairs are recorded (the whole tree of thousands of pairs with
+    // byte offsets is beyond what TLC re-derives in reasonable time)
+    fn count(v: &Value) -> u64 {
+        v.as_array().map(|a| a.iter().map(|t| 1 + count(&t["c"])).sum()).unwrap_or(0)
+    }
+    let emit_long = |s: &str, w: &mut dyn Write, id: &mut u64| {
+        *id += 1;
+        let mut got = real(s);
+        let n = count(&got["toks"]);
+        got["toks"] = json!([]);
+        serde_json::to_writer(&mut *w, &json!({"id": *id, "inp": cps(s), "got": got, "npairs": n})).unwrap();
+        w.write_all(b"\n").unwrap();
+    };
     // the documents of the repository's own tests and benches
     for f in ["grammars/tests/examples.json", "grammars/benches/data.json", "grammars/resources/test/jsonfuzzsample1.json"] {
         if let Ok(t) = std::fs::read_to_string(format!("{}/../../../repo/{}", env!("CARGO_MANIFEST_DIR"), f)) {
             if t.chars().count() < 3000 {
                 emit_one(&t, &mut w, &mut id);
             }
+        }
+    }
+    // long flat documents: thousands of scalars at depth one or two (a per-scalar cost that adds up - a counter, a
+    // buffer - only shows here); `--long 0` leaves them out
+    if arg_u64(args, "--long", 0) > 0 {
+        let rep = |item: &str, k: usize| format!("[{}]", vec![item; k].join(","));
+        let members: Vec<String> = (0..300).map(|i| format!("\"k{}\":[{},true]", i, i)).collect();
+        for d in [rep("0", 2100), rep("\"\\n\"", 1050), rep("-1.5e3", 700), format!("{{{}}}", members.join(",")),
+                  format!("[{}", rep("0", 2100).trim_start_matches('[').trim_end_matches(']')), rep("[]", 1500), rep("01", 1)] {
+            emit_long(&d, &mut w, &mut id);
         }
     }
     for _ in 0..n {
